@@ -169,6 +169,9 @@ pub struct BrokerCfg {
     pub overrun: bool,
     /// The broker answers PUBREL last: every other owed packet goes out before any PUBCOMP.
     pub pubcomp_last: bool,
+    /// Offer, as a fault (cost 1), an acknowledgement of the wrong kind carrying the identifier of a
+    /// request that is still waiting (PUBACK for a SUBSCRIBE, SUBACK for a publish ...).
+    pub wrong_kind_acks: bool,
 }
 
 impl Default for BrokerCfg {
@@ -194,6 +197,7 @@ impl Default for BrokerCfg {
             script_burst: false,
             overrun: false,
             pubcomp_last: false,
+            wrong_kind_acks: false,
         }
     }
 }
